@@ -23,9 +23,15 @@ func builtinJSONParse(call FunctionCall) Value {
 	}
 
 	var root interface{}
-	err := json.Unmarshal([]byte(call.Argument(0).string()), &root)
+	source := []byte(call.Argument(0).string())
+	err := json.Unmarshal(source, &root)
 	if err != nil {
 		panic(call.runtime.panicSyntaxError(err.Error()))
+	}
+	// Decode again keeping the order of the members: properties are created
+	// in source order (15.12.2), a Go map would yield them in random order.
+	if ordered, err := jsonDecodeOrdered(json.NewDecoder(bytes.NewReader(source))); err == nil {
+		root = ordered
 	}
 	value, exists := builtinJSONParseWalk(ctx, root)
 	if !exists {
@@ -37,6 +43,55 @@ func builtinJSONParse(call FunctionCall) Value {
 		return builtinJSONReviveWalk(ctx, root, "")
 	}
 	return value
+}
+
+// jsonObject is a decoded JSON object with its members in source order.
+type jsonObject struct {
+	names  []string
+	values []interface{}
+}
+
+// jsonDecodeOrdered decodes one JSON value like json.Unmarshal into an
+// interface{} does, except that objects become *jsonObject.
+func jsonDecodeOrdered(dec *json.Decoder) (interface{}, error) {
+	tok, err := dec.Token()
+	if err != nil {
+		return nil, err
+	}
+	delim, ok := tok.(json.Delim)
+	if !ok {
+		return tok, nil
+	}
+	switch delim {
+	case '[':
+		list := []interface{}{}
+		for dec.More() {
+			value, err := jsonDecodeOrdered(dec)
+			if err != nil {
+				return nil, err
+			}
+			list = append(list, value)
+		}
+		_, err = dec.Token() // ]
+		return list, err
+	case '{':
+		obj := &jsonObject{}
+		for dec.More() {
+			name, err := dec.Token()
+			if err != nil {
+				return nil, err
+			}
+			value, err := jsonDecodeOrdered(dec)
+			if err != nil {
+				return nil, err
+			}
+			obj.names = append(obj.names, name.(string))
+			obj.values = append(obj.values, value)
+		}
+		_, err = dec.Token() // }
+		return obj, err
+	}
+	return nil, fmt.Errorf("unexpected delimiter %v", delim)
 }
 
 func builtinJSONReviveWalk(ctx builtinJSONParseContext, holder *object, name string) Value {
@@ -86,6 +141,14 @@ func builtinJSONParseWalk(ctx builtinJSONParseContext, rawValue interface{}) (Va
 			}
 		}
 		return objectValue(ctx.call.runtime.newArrayOf(arrayValue)), true
+	case *jsonObject:
+		obj := ctx.call.runtime.newObject()
+		for index, name := range value.names {
+			if value, exists := builtinJSONParseWalk(ctx, value.values[index]); exists {
+				obj.put(name, value, false)
+			}
+		}
+		return objectValue(obj), true
 	case map[string]interface{}:
 		obj := ctx.call.runtime.newObject()
 		for name, rawValue := range value {
